@@ -36,6 +36,115 @@ SLINE_FNS = {
 }
 
 
+CAP = 16
+RL_INV = ['line.cursor >= 0', 'line.cursor <= line.len', 'line.len + 1 <= line.cap', 'history_size >= 1',
+          'headhist <= history_size - 1', 'curhist <= history_size', 'state >= 0', 'state <= 3']
+# struct readline with the line capacity instantiated (history slots are history_size * cap bytes: the product is
+# only linear for a fixed capacity); every history slot holds a terminated string (established by
+# readline_history_init's memset and by the push functions, which write len <= cap-1 bytes plus the terminator)
+RL = StructSpec('struct.readline', inv=RL_INV, owns={'line.buf': 'line.cap', 'history_space': 'history_size * %d' % CAP},
+                fixed={'line.cap': CAP})
+RL_NOHIST = StructSpec('struct.readline', inv=RL_INV, owns={'line.buf': 'line.cap'}, fixed={'line.cap': CAP})
+
+
+def ext_strlen_slot(interp, st, i, args):
+    """strlen on a history slot: slots are NUL-terminated inside their cap bytes (data invariant of the history)"""
+    from absval import PtrVal, IntVal
+    p = args[0]
+    w = i.ty.get('bits', 64)
+    r = st.fresh_int(w, False, 'slotlen')
+    if isinstance(p, PtrVal) and p.obj is not None:
+        o = st.objs.get(p.obj)
+        if o is not None and 'history_space' in str(o.info.get('desc', '')):
+            st.cons.add_le(r.u, CAP - 1)
+        elif o is not None and o.info.get('cstr_len') is not None:
+            return [(st, IntVal(w, o.info['cstr_len'] - p.off, None))]
+    return [(st, r)]
+
+
+def ext_i32toa(interp, st, i, args):
+    """igris_i32toa(num, buf, base): writes at most 11 characters ('-' + 10 digits) plus the terminator for base 10
+    and returns the address of the terminator (contract proved for the renderer itself under property C07)"""
+    from absval import PtrVal
+    from lin import Lin
+    buf = args[1]
+    if not isinstance(buf, PtrVal):
+        return None
+    k = st.fresh_int(64, False, 'digits')
+    st.cons.add_le(1, k.u)
+    st.cons.add_le(k.u, 11)
+    interp.check_access(st, buf, k.u + 1, i, 'i32toa-dst')
+    interp.mem_range_write(st, buf, k.u + 1, i)
+    return [(st, PtrVal(buf.obj, buf.off + k.u, buf.lo, buf.hi, True))]
+
+
+KEY_SPECIAL = ['c != 10', 'c != 13', 'c != 8', 'c != 27']
+
+
+def readline_specs():
+    return {
+        'readline_init': FnSpec(ctor=True, structs={'rl': RL_NOHIST}, pre=['len == %d' % CAP], extents={'buf': 'len'},
+                                post=[dict(name='empty', then=['line.len_post == 0', 'line.cursor_post == 0',
+                                                               'state_post == 0', 'curhist_post == 0', 'headhist_post == 0'])]),
+        'readline_newline_reset': FnSpec(post=[dict(name='reset', then=['line.len_post == 0', 'curhist_post == 0'])]),
+        'readline_history_pointer': FnSpec(pre=['num >= 0', 'num <= history_size'], post=[
+            dict(name='slot-start', then=['ret_off >= 0', 'ret_off <= history_size * %d - %d' % (CAP, CAP)])]),
+        'readline_current_history_pointer': FnSpec(post=[
+            dict(name='slot-start', then=['ret_off >= 0', 'ret_off <= history_size * %d - %d' % (CAP, CAP)])]),
+        '_readline_push_line_to_history': FnSpec(pre=['len <= %d' % (CAP - 1)], extents={'str': 'len'}),
+        'readline_push_current_line_to_history': FnSpec(),
+        'readline_load_history_line': FnSpec(),
+        'readline_history_up': FnSpec(),
+        'readline_history_down': FnSpec(),
+        'readline_linecpy': FnSpec(pre=['maxlen >= 1', 'maxlen <= 1073741824'], extents={'line': 'maxlen'},
+                                   post=[dict(name='length', then=['ret >= 0', 'ret <= maxlen - 1', 'ret <= rl.line.len'])]),
+        'readline_putchar': FnSpec(post=[
+            dict(name='bounded-growth', then=['line.len_post <= line.len + 1', 'line.cap_post == line.cap']),
+            dict(name='status-range', then=['ret >= -1', 'ret <= 9']),
+            dict(name='printable-inserted', when=['state == 0', 'line.len <= line.cap - 2'] + KEY_SPECIAL,
+                 then=['ret == 1', 'line.len_post == line.len + 1', 'line.cursor_post == line.cursor + 1', 'state_post == 0']),
+            dict(name='printable-refused-not-echoed', when=['state == 0', 'line.len >= line.cap - 1'] + KEY_SPECIAL,
+                 then=['ret != 1', 'line.len_post == line.len', 'line.cursor_post == line.cursor']),
+            dict(name='backspace', when=['state == 0', 'c == 8', 'line.cursor >= 1'],
+                 then=['ret == 3', 'line.len_post == line.len - 1', 'line.cursor_post == line.cursor - 1']),
+            dict(name='backspace-at-start', when=['state == 0', 'c == 8', 'line.cursor == 0'],
+                 then=['ret == 0', 'line.len_post == line.len']),
+            dict(name='escape-opens-sequence', when=['state == 0', 'c == 27'], then=['ret == 0', 'state_post == 1', 'line.len_post == line.len']),
+            dict(name='csi', when=['state == 1', 'c == 91'], then=['ret == 0', 'state_post == 2']),
+            dict(name='unknown-escape-returns-to-normal', when=['state == 1', 'c != 91'], then=['ret == 0', 'state_post == 0', 'line.len_post == line.len']),
+            dict(name='right', when=['state == 2', 'c == 67', 'line.cursor < line.len'], then=['ret == 9', 'line.cursor_post == line.cursor + 1', 'state_post == 0']),
+            dict(name='right-at-end', when=['state == 2', 'c == 67', 'line.cursor == line.len'], then=['ret == 0', 'line.cursor_post == line.cursor', 'state_post == 0']),
+            dict(name='left', when=['state == 2', 'c == 68', 'line.cursor >= 1'], then=['ret == 8', 'line.cursor_post == line.cursor - 1', 'state_post == 0']),
+            dict(name='left-at-start', when=['state == 2', 'c == 68', 'line.cursor == 0'], then=['ret == 0', 'line.cursor_post == 0', 'state_post == 0']),
+            dict(name='delete', when=['state == 2', 'c == 51', 'line.cursor < line.len'], then=['ret == 4', 'line.len_post == line.len - 1', 'line.cursor_post == line.cursor', 'state_post == 3']),
+            dict(name='delete-at-end', when=['state == 2', 'c == 51', 'line.cursor == line.len'], then=['ret == 0', 'line.len_post == line.len', 'state_post == 3']),
+            dict(name='tilde-consumed', when=['state == 3'], then=['ret == 0', 'state_post == 0', 'line.len_post == line.len']),
+            dict(name='newline', when=['state == 0', 'c == 13', 'last != 10'], then=['ret == 2', 'curhist_post == 0', 'line.len_post == line.len']),
+            dict(name='crlf-pair-is-one-newline', when=['state == 0', 'c == 10', 'last == 13'], then=['ret == 0', 'line.len_post == line.len']),
+        ]),
+    }
+
+
+def run_readline(rep, repo):
+    mod = witness('w_readline.c', repo)
+    rep.units.append('witness/w_readline.c -> igris/shell/readline.h, igris/defs/vt100.h')
+    ext = {'strlen': ext_strlen_slot, 'igris_i32toa': ext_i32toa}
+    it = Interp(mod, externals=ext)
+    run = ContractRun(it, [RL])
+    for fname, spec in readline_specs().items():
+        run.run(fname, spec)
+    rep.add_absint('R-READLINE', summarize(it, run))
+    # vt100_left: the caller's buffers are char[16]
+    it2 = Interp(mod, externals=ext)
+    run2 = ContractRun(it2, [])
+    run2.run('vt100_left', FnSpec(extents={'buf': '16'}, post=[dict(name='length', then=['ret >= 4', 'ret <= 14'])]))
+    rep.add_absint('R-VT100', summarize(it2, run2))
+    rep.floor('R-READLINE:post', 40)
+    rep.floor('R-READLINE:bounds', 15)
+    rep.floor('R-READLINE:invariant', 60)
+    rep.floor('R-VT100:bounds', 2)
+
+
 def run(rep, repo, tier):
     rep.explanation = (
         'Abstract interpretation (linear-inequality domain over LLVM IR, see DESIGN.md 3.2) of every sline '
@@ -48,6 +157,7 @@ def run(rep, repo, tier):
     mod = witness('w_sline.c', repo)
     rep.units.append('witness/w_sline.c -> igris/datastruct/sline.h')
     run_contracts(rep, 'R-SLINE', mod, [SLINE], SLINE_FNS)
+    run_readline(rep, repo)
     rep.floor('R-SLINE:bounds', 25)
     rep.floor('R-SLINE:invariant', 60)
     rep.floor('R-SLINE:post', 20)
